@@ -329,6 +329,14 @@ def run(ck):
     exe = ck.build("asan", ["vsrv"])["vsrv"]
     thorough = ck.tier == "thorough"
     n = int((40000 if thorough else 700) * ck.scale)
+    hdr = ck.build("asan", ["hdr_mon"])["hdr_mon"]
+    sa.run_jobs(ck, [dict(exe=hdr, args=["--cases", int((40000 if thorough else 1000) * ck.scale), "--seed", sa.subseed(ck, 950 + i)], label="hdr%d" % i, timeout=7200) for i in range(2)], sets=("blocks",))
+    if thorough:
+        from .. import fuzz
+        fuzz.run_libfuzzer(ck, "hdr_fuzz", seconds=int(600 * ck.scale), jobs=8, key_prefix="c02:fuzz-header-parser", max_len=4096,
+                           seeds=[b"\x00\x01GET /a HTTP/1.1\r\nHost: x\r\nX-Q: \"a\\\"b\"\r\nX-F: a\r\n b\r\n\r\nbody"])
+        fuzz.run_libfuzzer(ck, "mp_fuzz", seconds=int(300 * ck.scale), jobs=8, key_prefix="c02:fuzz-multipart-parser", max_len=2048,
+                           seeds=[b"\x00\x01--XyZ\r\nContent-Disposition: form-data; name=\"a\"\r\n\r\nv\r\n--XyZ--\r\n"])
     args = [(ck.rundir, exe, sa.subseed(ck, i), n, i) for i in range(16)]
     results = c01.run_workers(ck, worker, args)
     classes = set()
